@@ -170,7 +170,10 @@ def run_harness(binp, sub, tier, seed, variant, shard=None, timeout=3600, extra_
         # check ends INCONCLUSIVE unless one of them reports a violation
         return {"flaky_crash": True, "signal": -rc, "variant": variant, "engine": "native", "sub": sub, "cmd": " ".join(cmd),
                 "reason": "harness %s died with signal %d (%d of 4 multi-threaded runs) and did not reproduce single-threaded" % (tag, -rc, 1 + again)}
-    raise Inconclusive("harness %s exited with status %s: %s" % (tag, rc, (err or "")[-600:].replace("\n", " | ")))
+    # an uncaught panic of the harness itself (exit 101) or another non-zero status decides nothing about konst;
+    # like a crash that does not repeat it only defers an INCONCLUSIVE verdict until the other engines have run
+    return {"flaky_crash": True, "signal": 0, "variant": variant, "engine": "native", "sub": sub, "cmd": " ".join(cmd),
+            "reason": "harness %s exited with status %s: %s" % (tag, rc, (err or "")[-600:].replace("\n", " | "))}
 
 
 def run_many(jobs, workers=None):
